@@ -336,6 +336,9 @@ class C17(Prop):
         aas, _ = PINNED[tid]
         stops = ["".join(("TCAG"[p // 16], "TCAG"[(p % 16) // 4], "TCAG"[p % 4])) for p in range(64) if aas[p] == "*"]
         mode = rng.random()
+        if mode > 0.94:         # made only of degenerate residues (with and without N): every codon takes the GetTranslation / IsInitiator path
+            alph = rng.choice(["RYMKSWHBVDN", "RYMKSWHBVD", "RY", "RYN", "MKSW"])
+            return "".join(rng.choice(alph) for _ in range(L))
         pdeg = 0.0 if mode < 0.4 else (0.02 if mode < 0.8 else 0.2)
         pstop = rng.choice([0.0, 0.01, 0.03, 0.1])
         s = []
